@@ -56,6 +56,9 @@ void *memset(void *, int, unsigned long);
   static inline void vec_##M##_push_back(struct vec_##M *v, T x) { VEC_PUSH_BODY(T) } \
   static inline void vec_##M##_pop_back(struct vec_##M *v) { SHIM_ASSERT(v->size > 0, "shim.vector.pop_back.nonempty"); v->size = v->size - 1; } \
   static inline void vec_##M##_clear(struct vec_##M *v) { v->size = 0; } \
+  static inline void vec_##M##_reserve(struct vec_##M *v, unsigned long n) { \
+    if (n > v->cap && v->size == 0) { SHIM_ASSERT(n <= g_alloc_bound, "shim.alloc.bounded_by_input"); \
+      T *nd = (T *)malloc(n * sizeof(T)); __CPROVER_assume(nd != 0); v->data = nd; v->cap = n; } } \
   static inline void vec_##M##_resize(struct vec_##M *v, unsigned long n) { \
     SHIM_ASSERT(n <= g_alloc_bound, "shim.alloc.bounded_by_input"); \
     if (n > v->cap) { SHIM_ASSERT(v->size == 0, "shim.vector.growing_resize_of_nonempty_vector_not_modelled"); \
@@ -72,6 +75,8 @@ void *memset(void *, int, unsigned long);
 #define IL_F(T, M)
 #define RITER_T(T, M) struct riter_##M { T base; };
 #define RITER_F(T, M)
+#define RITER_PREINC(p) ((p)->base = (p)->base - 1, (p))
+#define RITER_PREDEC(p) ((p)->base = (p)->base + 1, (p))
 #define OPAQUE_DECL(M) struct opaque_##M { char __opaque; };
 
 /* ---- <cctype> : ASCII ("C" locale) ---- */
